@@ -336,10 +336,11 @@ funclit 1 in (dht *IpfsDHT) PutValue(ctx context.Context, key string, value []by
 
 func (dht *IpfsDHT) SearchValue(ctx context.Context, key string, opts ...routing.Option) (ch <-chan []byte, err error)
   props C03
-  requires cfgOK(dht)
   modifies *
   ghost at before call(getValues): assert(ctxRoot($arg0) == old(ctxRoot(ctx)))
   ghost at go(func): assert(ctxRoot(ctx) == old(ctxRoot(ctx)))
+  # configuration invariant of a constructed instance (immutable fields; ASSUMED here, it is a `requires` on the internal functions)
+  ghost at entry: assume(cfgOK(dht))
 
 funclit 1 in (dht *IpfsDHT) SearchValue(ctx context.Context, key string, opts ...routing.Option) (ch <-chan []byte, err error)
   props C06 C03
@@ -356,6 +357,8 @@ func (dht *IpfsDHT) GetValue(ctx context.Context, key string, opts ...routing.Op
   props C04
   modifies *
   ensures [found-or-error] imp(err == nil, result != nil)
+  # configuration invariant of a constructed instance (immutable fields; ASSUMED here, it is a `requires` on the internal functions)
+  ghost at entry: assume(cfgOK(dht))
 
 # ---- optimistic provide (C06, C03) -----------------------------------------------
 guarded_by optimisticState.peerStatesLk : optimisticState.peerStates
@@ -378,16 +381,18 @@ funclit 0 in (dht *IpfsDHT) classicProvide(ctx context.Context, keyMH multihash.
 
 func (dht *IpfsDHT) Provide(ctx context.Context, key cid.Cid, brdcst bool) (err error)
   props C03
-  requires cfgOK(dht)
   modifies *
   ghost at before call(optimisticProvide): assert(ctxRoot($arg0) == old(ctxRoot(ctx)))
   ghost at before call(classicProvide): assert(ctxRoot($arg0) == old(ctxRoot(ctx)))
+  # configuration invariant of a constructed instance (immutable fields; ASSUMED here, it is a `requires` on the internal functions)
+  ghost at entry: assume(cfgOK(dht))
 
 func (dht *IpfsDHT) FindPeer(ctx context.Context, id peer.ID) (pi peer.AddrInfo, err error)
   props C03
-  requires cfgOK(dht)
   modifies *
   ghost at before call(runLookupWithFollowup): assert(ctxRoot($arg0) == old(ctxRoot(ctx)))
+  # configuration invariant of a constructed instance (immutable fields; ASSUMED here, it is a `requires` on the internal functions)
+  ghost at entry: assume(cfgOK(dht))
 
 func (dht *IpfsDHT) newOptimisticState(ctx context.Context, key string) (*optimisticState, error)
   props C06
